@@ -239,6 +239,10 @@ def corpus():
     # finishes a few iterations later in the same instant, the common successor waits for a window slot
     out.append(("D10", dict(tree=S("top", [J("A", 1, exc=True, h=0), J("B", 1, k=2, h=1), J("X1", 5, h=2), J("X2", 5, h=3),
                                           J("K", 1, req=["A", "B"], h=4)], w=2))))
+    # D13: (python <= 3.11) a non-critical job raises, the reaction yields to the loop, a critical job raises meanwhile:
+    # the delayed reaction sees the last regular job done and reports success
+    out.append(("D13", dict(tree=S("top", [J("j1", 1, exc=True, h=0), J("c", 1, k=2, exc=True, crit=True, forever=True, h=1)]))))
+    out.append(("D13b", dict(tree=S("top", [J("j1", 1, exc=True, h=0), J("c", 1, k=3, exc=True, crit=True, forever=True, h=1)]))))
     # D7: timeout=0
     out.append(("D7", dict(tree=S("top", [J("a", 1)], T=0, crit=True))))
     out.append(("D7b", dict(tree=S("top", [S("in", [J("a", 1)], T=0, crit=True)], crit=False))))
